@@ -17,6 +17,15 @@ CLAIMED = {
              "Partial: IEEE serialisers, byte-order helpers and ADPCM decoders are being added.",
         technique="Lean 4 theorems over a hand-written model + exhaustive correspondence (tables extracted by execution)",
         design_ref="DESIGN.md §7 C20"),
+    "C13": dict(
+        text="Proof (Lean 4) over a code-shaped model of chunk.c, the header cache and the four containers' custom-chunk writers/parsers: write/read table invariant "
+             "used <= capacity for any number of calls (and the pre-adbbe09 rule proved to overflow first at call 32), serialise->parse round trip for every chunk list "
+             "satisfying an explicit `fits` predicate (4-byte padded sizes, payload + zero padding, order kept), iteration visits exactly the wanted entries once and then "
+             "returns NULL, get_chunk_data touches at most datalen bytes. Partial: the full statement is refuted by proved witnesses in 7 known-finding classes "
+             "(100 KiB header cache, ids shorter than 4 / unprintable / reserved, chunk set after audio, stale single iterator, zero-byte read over virtual I/O), each replayed every run. "
+             "Correspondence sampled: every count 0..200 on WAV, spreads elsewhere, boundary payload sizes, iterator patterns; 16-bit PCM files only.",
+        technique="Lean 4 theorems over a hand-written model + sampled correspondence (sfmodel chunks vs sfh under ASan) + property predicate on the implementation transcript",
+        design_ref="DESIGN.md §7 C13"),
 }
 
 CLAIMED["C02"] = dict(
@@ -27,6 +36,21 @@ CLAIMED["C02"] = dict(
          "own output with exact rational arithmetic. Partial: float-kernel theorems (clip_saturates, float_read_exact) are being added.",
     technique="Lean 4 theorems over a hand-written bit-exact kernel model + exhaustive/sampled correspondence through the RAW container",
     design_ref="DESIGN.md §7 C02")
+
+CLAIMED["C05"] = dict(
+    text="Proof (Lean 4) about the handle state machine SfModel.Handle (the 16 read/write wrappers, guards in order, end-of-data clamp, zero fill, position "
+         "bookkeeping) tied to the code two ways: (A) byte-exact transcript correspondence of seeded random histories on every RAW/AU/WAV encoding; (B) the "
+         "count/bounds/position contract re-evaluated on the implementation's own transcripts for every writable (major, subtype, endian) incl. all block codecs, "
+         "against one sequential reference read, with exact-size ASan-guarded buffers. Partial: opaque codecs are covered by (B) only.",
+    technique="Lean 4 theorems over a hand-written handle model + differential correspondence + contract evaluation on implementation transcripts",
+    design_ref="DESIGN.md §7 C05")
+CLAIMED["C06"] = dict(
+    text="Proof (Lean 4) about sf_seek's whence arithmetic and the read path of SfModel.Handle (seek result is the requested frame or -1 with error; reads depend on "
+         "position only); correspondence (A) byte-exact on RAW/AU/WAV histories, (B) on every writable format incl. IMA/MS ADPCM, GSM, PAF24, SDS, ALAC, DWVW: "
+         "seeded seek/read histories must deliver slices of the one-pass reference stream and position probes must agree. Handles reporting SF_INFO.seekable = 0 "
+         "are required to refuse every seek. Partial: block-codec seek internals are opaque (checked by B).",
+    technique="Lean 4 theorems over a hand-written handle model + differential correspondence + contract evaluation on implementation transcripts",
+    design_ref="DESIGN.md §7 C06")
 
 PENDING_REASON = "check under construction in this round (DESIGN.md §7 gives the plan); not claimed until its check passes on the clean tree"
 
